@@ -29,16 +29,16 @@ OWNERS = [
     ("units/posc.py", "C01 C02 C06 C16 C19"),
     ("units/unit_database.py", "C01 C14 C15 C16 C19 C12 C02 C05 C07 C06"),
     ("units/_quantity.py", "C07 C03 C04 C05 C20 C08 C15 C16 C02"),
-    ("units/_scalar.py", "C13 C08 C09 C12 C19 C03 C04 C16 C02"),
-    ("units/_array.py", "C10 C09 C13 C12 C19 C03 C02"),
-    ("units/_fixedarray.py", "C11 C13 C19 C10 C09"),
-    ("units/_abstractvaluewithquantity.py", "C13 C19 C12 C08 C09 C16 C11 C07 C02"),
-    ("units/_fraction_scalar.py", "C18 C08 C13 C12 C19 C16"),
+    ("units/_scalar.py", "C08 C09 C12 C19 C13 C03 C04 C16 C02"),
+    ("units/_array.py", "C10 C09 C12 C19 C13 C03 C02"),
+    ("units/_fixedarray.py", "C11 C19 C10 C09 C13"),
+    ("units/_abstractvaluewithquantity.py", "C19 C08 C12 C09 C13 C16 C11 C07 C02"),
+    ("units/_fraction_scalar.py", "C18 C08 C12 C19 C13 C16"),
     ("basic/fraction/", "C18 C08 C13"),
     ("units/unit_system", "C17"),
     ("units/scalar_validation/", "C12"),
     ("units/_value_generator.py", "C10 C09 C11 C03"),
-    ("curve/", "C11 C13"),
+    ("curve/", "C11 C08 C13"),
     ("basic/format_float/", "C18 C20"),
     ("_util/", "C09 C10 C11 C18 C13"),
     ("units/", "C05 C19 C07 C14"),
@@ -371,6 +371,8 @@ def checks():
     if os.path.exists(OUT + "/verdicts.jsonl"):
         done = {json.loads(l)["id"] for l in open(OUT + "/verdicts.jsonl")}
     todo = [m for m in surv if m["id"] not in done]
+    prio = ["units/unit_database.py", "units/_quantity.py", "units/unit_system_manager.py", "units/_scalar.py", "units/_array.py", "units/_fixedarray.py", "units/posc.py", "units/_fraction_scalar.py"]
+    todo.sort(key=lambda m: (prio.index(m["file"]) if m["file"] in prio else len(prio), m["id"]))
     nw = int(os.environ.get("MUT_WORKERS", "3"))
     procs = os.environ.get("MUT_PROCS", "6")
     import queue, threading
